@@ -672,3 +672,69 @@ func TestEveryCodePoint(t *testing.T) {
 	P.ClassN("parse/code-point-unspecified", unspec)
 	P.SetExtra("code_points_judged", n)
 }
+
+// TestConcurrentParse: goroutines parse accepted and refused strings at the same time - each its own short list, asking
+// every string several times in a row, neighbours asking look-alike strings (same text, one letter in upper case; same
+// text with a trailing slash) - and Covers / Join / Segments on the results. Every answer is the reference grammar's
+// answer for THAT string; what another goroutine is asking at that moment is nothing to it. Race-detector build.
+func TestConcurrentParse(t *testing.T) {
+	ctx := &h.Ctx{P: P, T: t}
+	bases := []string{"/crud/create", "/msg/send", "/a", "/", "/store/é/x", "/foo//bar", "/x/y/z/w", "/very/long/command/with/many/segments/in/it"}
+	var inputs []string
+	for _, b := range bases {
+		inputs = append(inputs, b)
+		if len(b) > 1 {
+			inputs = append(inputs, b+"/", strings.ToUpper(b[:2])+b[2:], b[:len(b)-1]+strings.ToUpper(b[len(b)-1:]), b[1:], " "+b)
+		}
+	}
+	type verdict struct{ valid, specified bool }
+	ref := map[string]verdict{}
+	for _, s := range inputs {
+		v, sp := refValid(s)
+		ref[s] = verdict{v, sp}
+	}
+	rounds := h.N(300, 3000)
+	var mu sync.Mutex
+	bad := ""
+	pv := h.Concurrently(8, func(g int) {
+		for r := 0; r < rounds; r++ {
+			s := inputs[(g*7+r/3)%len(inputs)] // every string three times in a row, neighbours offset
+			if g%2 == 1 {
+				s = inputs[(g*7+r)%len(inputs)]
+			}
+			want := ref[s]
+			if !want.specified {
+				continue
+			}
+			got, err := command.Parse(s)
+			if (err == nil) != want.valid || (err == nil && got.String() != s) || command.IsValid(s) != want.valid {
+				mu.Lock()
+				if bad == "" {
+					bad = fmt.Sprintf("goroutine %d, round %d: Parse(%q) = (%q, %v), IsValid = %v; the grammar says valid = %v", g, r, s, got, err, command.IsValid(s), want.valid)
+				}
+				mu.Unlock()
+				return
+			}
+			if err == nil {
+				if !got.Covers(got) || !eqStrs(got.Segments(), refSegments(s)) {
+					mu.Lock()
+					if bad == "" {
+						bad = fmt.Sprintf("goroutine %d: %q does not cover itself / reports segments %q while other goroutines parse", g, s, got.Segments())
+					}
+					mu.Unlock()
+					return
+				}
+			}
+		}
+	})
+	if pv != nil {
+		ctx.Fail("C15/concurrent/panic", "concurrent Parse panicked: %v", pv)
+		return
+	}
+	if bad != "" {
+		ctx.Fail("C15/concurrent/parse", "%s", bad)
+		return
+	}
+	P.EvalN(8 * rounds)
+	P.AddDistinct(len(inputs))
+}
